@@ -178,6 +178,55 @@ func C13(c *fw.Ctx) {
 		}
 	}
 	c.Bound("examples", len(files))
+	// F: the same program executed several times in ONE process (as successive lines of one
+	// interactive session) responds identically every time
+	replLines := []string{
+		model.KwPrint + " " + model.BiLen + "([1, 2, 3]); " + model.BiLen + " = 7; " + model.KwPrint + " " + model.BiLen + " + 1;",
+		model.BiMax + " = 0; " + model.KwPrint + " " + model.BiMax + ";",
+		model.KwVar + " t = {b: 1, a: 2}; " + model.KwPrint + " " + model.BiKeys + "(t); " + model.KwPrint + " t;",
+		model.KwVar + " q = [1]; q = " + model.BiAppend + "(q, 2); " + model.KwPrint + " q;",
+		model.KwFun + " f() { " + model.KwReturn + " 1; } " + model.KwPrint + " f();",
+		model.KwPrint + " zz;",
+		model.BiInput + " = 1; " + model.KwPrint + " " + model.BiInput + ";",
+		"1 / 0;",
+		model.KwPrint + " {kb: 1, ka: 2}.zz;",
+	}
+	for _, ln := range replLines {
+		if !c.Mine() {
+			continue
+		}
+		session := strings.Repeat(ln+"\n", 4)
+		o := h.RunRepl(session, h.Opts{})
+		c.Eval(session, true)
+		c.R.States++
+		c.R.Transitions++
+		base := fw.Replay{Mode: "repl", Program: session, CLI: true, InStdout: o.Stdout, InStderr: o.Stderr, InStatus: o.Status}
+		if abnormal(c, o, "repl", session, base) {
+			continue
+		}
+		parts := strings.Split(o.Stdout, ">> ")
+		ok := len(parts) == 6
+		for k := 2; ok && k <= 4; k++ {
+			if parts[k] != parts[1] {
+				ok = false
+			}
+		}
+		errUnit := strings.Repeat("x", 0)
+		_ = errUnit
+		if ok && o.Stderr != "" {
+			// stderr must be four copies of one text
+			n := len(o.Stderr)
+			ok = n%4 == 0 && strings.Repeat(o.Stderr[:n/4], 4) == o.Stderr
+		}
+		if !ok {
+			r := base
+			r.Sig = "C13|same-process-repetition"
+			r.What = "the same program executed four times in one process must respond identically each time"
+			r.Expected = "four identical responses"
+			r.Observed = fmt.Sprintf("stdout %q stderr %q", trunc(o.Stdout, 300), trunc(o.Stderr, 300))
+			c.Violate(r)
+		}
+	}
 	// supplementary: fresh uninstrumented processes
 	if cli := os.Getenv("VERIF_CLI"); cli != "" && c.Shard == 0 {
 		reps := 8
